@@ -84,7 +84,7 @@ def realise(d, rng, kind=None):
             else:
                 w[rng.randrange(m)] = rng.choice([0.0, -1.0])
         out["w"] = w
-    out["level"] = rng.choice([0.25, 0.5, 0.75, 0.1]) if d["levelValid"] else rng.choice([0, 1, -0.5, 1.5, 2, float("nan")])
+    out["level"] = rng.choice([0.25, 0.5, 0.75, 0.1]) if d["levelValid"] else rng.choice([0, 0, 0.0, 1, 1, -0.5, 1.5, 2, float("nan")])
     out["functional"] = d["f"] if d["f"] != "unknown" else rng.choice(["XXX", "Mean", "quantil", ""])
     out["bin_method"] = rng.choice(["quantile", "uniform", "sturges", "auto"]) if d["binMethodValid"] else rng.choice(["XXX", "Quantile", ""])
     out["n_bins"] = rng.randint(2, 8) if d["nBinsOk"] else rng.choice([1, 0, -3])
